@@ -4,7 +4,7 @@
    harness/props/c10.py). *)
 From Coq Require Import Lia.
 From Coq Require Import Permutation.
-From Ctg Require Import Base Net Paths BaseFacts PathsFacts PathsRoundtrip.
+From Ctg Require Import Base Net Paths BaseFacts PathsFacts PathsRoundtrip PathsOrdered.
 From Ctg Require ExecOrderFacts.
 
 (* key fact behind linear <-> ssa: on a strictly increasing id list the real binary search
@@ -99,6 +99,28 @@ Theorem C10_roundtrips_valid_order : forall N t order, full_leaves N t -> ExecOr
 Proof. exact roundtrips_valid_order. Qed.
 Print Assumptions C10_roundtrips_valid_order.
 
+(* traverse_ordered_children_first (+ traverse_covers_all_nodes_once): for an ARBITRARY score
+   function, the model of _traverse_ordered -- queue / scores / seen, bisect run as the real
+   binary search on the prefix scores[:i], no sortedness of the scores assumed -- returns an
+   admissible order: every internal node of t exactly once, every internal child strictly
+   before its parent.  (Hypothesis: the leaves of t are distinct.) *)
+Theorem C10_traverse_ordered_children_first : forall order t, NoDup (leaves t) ->
+  ok_order t (traverse_ordered order t) /\ Permutation (traverse_ordered order t) (post_sub t).
+Proof. exact traverse_ordered_ok. Qed.
+Print Assumptions C10_traverse_ordered_children_first.
+
+(* hence tree -> get_path(order) -> from_path is lossless for every callable order *)
+Theorem C10_roundtrips_traverse_ordered : forall order N t, full_leaves N t ->
+  (exists t', from_path N (map pl (get_path N (traverse_ordered order t))) = Some [t'] /\ sim t t' /\
+              Permutation (map node_set (post_sub t)) (map node_set (post_sub t'))) /\
+  (exists t', from_ssa_path N (map pl (get_ssa_path N (traverse_ordered order t))) = Some [t'] /\ sim t t' /\
+              Permutation (map node_set (post_sub t)) (map node_set (post_sub t'))).
+Proof.
+  intros order N t H. destruct (traverse_ordered_ok order t (proj1 H)) as [Hok HP].
+  split; [apply get_path_roundtrip|apply get_ssa_path_roundtrip]; assumption.
+Qed.
+Print Assumptions C10_roundtrips_traverse_ordered.
+
 (* the per-run checkers stay as a cross-check between the model and the real paths *)
 Theorem C10_roundtrip_lin_checker_sound : forall N t path, roundtrip_lin_b N t path = true ->
   exists t', from_path N path = Some [t'] /\ same_nodes t t' = true.
@@ -155,9 +177,15 @@ Example C10_nonvacuous :
   ssa_to_linear [[4;2]; [3;0]; [6;1]; [7;5]] 5 = [[2;4]; [0;2]; [0;2]; [0;1]] /\
   roundtrip_lin_b 5 t [[2;4]; [0;2]; [0;2]; [0;1]] = true /\
   strictly_increasing [1; 5; 6] /\ bisect_left [1;5;6] 5 = 1 /\
-  edge_path_to_ssa [1; 2; 0] [[0;1]; [1;2]; [2;0;1]] = ([[0;1;2]], false).
+  edge_path_to_ssa [1; 2; 0] [[0;1]; [1;2]; [2;0;1]] = ([[0;1;2]], false) /\
+  full_leaves 5 t /\ valid_lin 5 [[2;4]; [0;2]; [0;2]; [0;1]] /\ valid_ssa (seq 0 5) 5 [[4;2]; [3;0]; [6;1]; [7;5]].
 Proof.
-  cbn zeta. repeat split; try (vm_compute; reflexivity).
-  intros i j Hij Hj. cbn in Hj.
-  destruct j as [|[|[|j]]]; destruct i as [|[|[|i]]]; cbn; lia.
+  cbn zeta. repeat match goal with |- _ /\ _ => split end; try (vm_compute; reflexivity).
+  - intros i j Hij Hj. cbn in Hj.
+    destruct j as [|[|[|j]]]; destruct i as [|[|[|i]]]; cbn; lia.
+  - split; [|split]; [| |reflexivity].
+    + cbn. repeat constructor; cbn; intuition lia.
+    + cbn. intuition lia.
+  - cbn. repeat split; try discriminate; try (repeat constructor; cbn; intuition lia); cbn; intuition lia.
+  - cbn. repeat split; try discriminate; try (repeat constructor; cbn; intuition lia); cbn; intuition lia.
 Qed.
